@@ -18,7 +18,7 @@ OUTSIDE = ["more than 2 contests with symbolic draws (the draw-by-draw sign comp
 BOUNDS = {"quick": "2 contests, B = 2 draws, levels {0.5, 0.9}, symbolic margin draws for one contest at a time (the other contest has concrete draws); hard threshold, correlation on/off; "
                    "called / stop-listed subsets; history clause: every list and order of aggregates computed before the summary over "
                    "{postal_code, county_fips, county_classification} must give the same summary as the contests alone; several summary requests with different weights after one run; wrong-size dictionary",
-          "thorough": "both contests with symbolic draws at once"}
+          "thorough": "adds two cases with both contests' draws symbolic at once and history cases for the other contest"}
 OPTS = {"quick": dict(case_timeout_s=900, solver_timeout_ms=30000, max_paths=200000),
         "thorough": dict(case_timeout_s=3300, solver_timeout_ms=60000, max_paths=2000000)}
 
@@ -35,8 +35,8 @@ def cases(tier):
                                             "_".join("%s%s" % (k, "".join(v)) for k, v in calls.items()) or "nocalls", wi)
                 out.append(dict(name=nm, kind="summary", corr=corr, calls=calls, B=2, alphas=[0.5, 0.9], units=units, weights=weights,
                                 base=base, aggregates=["postal_code", "unit"], weight=30,
-                                symbolic_rows=[0] if tier == "quick" else None))
-                if tier == "quick":
+                                symbolic_rows=[0]))
+                if True:
                     out.append(dict(out[-1], name=nm + "_row1", symbolic_rows=[1]))
     levels = ["postal_code", "county_fips", "county_classification"]
     orders = []
@@ -46,7 +46,15 @@ def cases(tier):
                 orders.append(list(combo))
     for o in orders:
         out.append(dict(name="history_%s" % "+".join(a.split("_")[-1][:5] for a in o), kind="history", order=o, B=2, alphas=[0.9],
-                        units=units, symbolic_rows=[0] if tier == "quick" else None, weight=20))
+                        units=units, symbolic_rows=[0], weight=20))
+    if tier == "thorough":
+        # both contests with symbolic draws at once (thousands of sign patterns per case)
+        for corr in (True, False):
+            out.append(dict(name="summary_%s_nocalls_both_rows" % ("corr" if corr else "nocorr"), kind="summary", corr=corr, calls={}, B=2,
+                            alphas=[0.9], units=units, weights=[11, 16], base=100, aggregates=["postal_code", "unit"], weight=500))
+        for o in (["postal_code", "county_fips"], ["county_fips", "postal_code"]):
+            out.append(dict(name="history_row1_%s" % "+".join(a.split("_")[-1][:5] for a in o), kind="history", order=o, B=2, alphas=[0.9],
+                            units=units, symbolic_rows=[1], weight=20))
     for corr in (True, False):
         out.append(dict(name="repeated_requests_%s" % ("corr" if corr else "nocorr"), kind="repeat", corr=corr, B=2, alphas=[0.9],
                         units=units, aggregates=["postal_code", "unit"], symbolic_rows=[0], weight=25))
